@@ -116,14 +116,31 @@ theorem ids_start_fresh :
     Gen.GlobalState.idManagerInit = ["self.last_used_ids = defaultdict(lambda: 0)", "self.start_ids = {}"]
     ∧ Gen.GlobalState.initializeGlobals = ["globals = continuation_data", "globals = Globals(name_slots=name_slots)"] := by decide
 
-/-- `generate` and the caller's `plugin_options` — stated *relative to the recorded defect D19c*: the
-    dict the caller passed is written to (`plugin_options['snowfakery_version'] = …`) before it is
-    copied by `process_plugins_options`.  When the defect is repaired this lemma has to follow. -/
-theorem generate_plugin_options_D19c :
+/-- `generate` and the caller's `plugin_options` (D19c repaired by commit 6b35a3e): the dict is copied
+    before the recipe's version is stored into it — the value of the `copies` parameter of
+    `prepareOptions` under which `caller_plugin_options_untouched` is stated -/
+theorem generate_copies_plugin_options : Gen.GlobalState.copiesPluginOptions = true := by decide
+
+theorem generate_plugin_options_statements :
     Gen.GlobalState.generatePluginOptions =
-      ["plugin_options = plugin_options or {}",
+      ["plugin_options = dict(plugin_options or {})",
        "if parse_result.version:     plugin_options['snowfakery_version'] = parse_result.version",
        "plugin_options = process_plugins_options(snowfakery_plugins, plugin_options)",
        "options, extra_options = merge_options(parse_result.options, user_options, plugin_options)"] := by rfl
+
+/-- `Functions.datetime` (commit f914bf1): the object served by the `parse_datetimespec` cache is converted
+    when it carries a non-zero offset and relabelled otherwise (`datetimeFn`); the default zone is UTC
+    (`stdV`) -/
+theorem datetime_postprocess :
+    Gen.GlobalState.datetimePostprocess =
+      ["dt = parse_datetimespec(datetimespec)",
+       "if dt.utcoffset() and timezone is not None:\n    dt = dt.astimezone(timezone)\nelse:\n    dt = dt.replace(tzinfo=timezone)"]
+    ∧ Gen.GlobalState.datetimeDefaultZone = ["UTCAsRelDelta"] := by
+  constructor <;> rfl
+
+/-- `Functions.date` hands the `parse_date` result out as it is (identity view: the offset-dependent
+    calendar day reaches the row — D19b) -/
+theorem date_returns_cached_value :
+    Gen.GlobalState.dateReturns = ["return parse_date(datespec)", "return date(year, month, day)"] := by rfl
 
 end SnowModel.Props.C19Bridge
